@@ -36,7 +36,7 @@ Reset ==
     /\ view' = [p \in Pubs |-> {}] /\ last' = NoRequest
 
 \* RepositoryManager::init, and the file system events of C11
-Skip == (IsEvent("Init") \/ IsEvent("fs") \/ IsEvent("wend") \/ IsEvent("Restart")
+Skip == (IsEvent("Init") \/ IsEvent("fs") \/ IsEvent("fserr") \/ IsEvent("fsfail") \/ IsEvent("wend") \/ IsEvent("Restart")
          \/ IsEvent("Rewrite"))
         /\ UNCHANGED vars
 
@@ -60,16 +60,19 @@ Prev == Rec[l - 1]
 AtRequest == l > 1 /\ Prev.ev \in {"Add", "Remove", "Delta", "List", "Update", "Reset"}
 
 \* the action properties of C10 on every step that is not a separator
-NotReset == l <= Len(Rec) /\ Line.ev \notin {"reset", "Init", "fs", "wend", "Restart", "Rewrite"}
-TraceStepProps10 ==
-    [][ NotReset => /\ AppliedIffStep
-                    /\ DeltaAtomicStep
-                    /\ UnknownRefusedStep
-                    /\ IsolationStep
-                    /\ RemoveWithdrawsExactlyOwnStep
-                    /\ UpdatePublishesViewsStep
-                    /\ SerialPlusOneStep
-                    /\ SessionOnlyOnResetStep ]_<<vars, l>>
+NotReset == l <= Len(Rec) /\ Line.ev # "reset"
+TraceAppliedIff == [][NotReset => AppliedIffStep]_<<vars, l>>
+TraceDeltaAtomic == [][NotReset => DeltaAtomicStep]_<<vars, l>>
+TraceUnknownRefused == [][NotReset => UnknownRefusedStep]_<<vars, l>>
+TraceIsolation == [][NotReset => IsolationStep]_<<vars, l>>
+TraceRemoveWithdrawsExactlyOwn == [][NotReset => RemoveWithdrawsExactlyOwnStep]_<<vars, l>>
+TraceUpdatePublishesViews == [][NotReset => UpdatePublishesViewsStep]_<<vars, l>>
+TraceSerialPlusOne == [][NotReset => SerialPlusOneStep]_<<vars, l>>
+TraceSessionOnlyOnReset == [][NotReset => SessionOnlyOnResetStep]_<<vars, l>>
+
+TraceTypeOK == TypeOK
+TraceStagedApplies == StagedAppliesToSnapshot
+TraceUnregistered == UnregisteredHasNothing
 
 \* conformance of the remaining observations
 NoPanic == AtRequest => ~Prev.panic
@@ -93,13 +96,6 @@ RepliesAgree ==
     AtRequest =>
         /\ Prev.ev = "Add" => (Prev.ok <=> last.ok)
         /\ Prev.ev \in {"Update", "Reset"} => Prev.ok
-
-TraceInvariant10 ==
-    /\ Inv10
-    /\ NoPanic
-    /\ StatsAgree
-    /\ DetailsAgree
-    /\ RepliesAgree
 
 TraceAccepted ==
     LET d == TLCGet("stats").diameter IN
